@@ -1,4 +1,172 @@
-(* 12.48in model runs (stub until Iface12 is modelled) *)
-let run_case (_full : bool) (id : string) (_delay : int option) (_busy : string)
-    (_fault : (int * int) option) (_scribble : bool) (_ops : string list list) (out : Buffer.t) : unit =
-  Buffer.add_string out (Printf.sprintf "case %s\nend\n" id)
+(* Script driver for the extracted 12.48in model (coq/Big/Model.v).  Reads the same op lines as
+   harness/src/big.rs and prints the same canonical lines.  Hand-written glue: trusted for the
+   correspondence check, not for the theorems. *)
+module L = Stdlib.List
+open BinNums
+open Util
+
+(* ---------------------------------------------------------------- buffers *)
+let bufs : (int * int, Bytes.t) Hashtbl.t = Hashtbl.create 16
+let last : ((int * int) * Bytes.t) option ref = ref None
+
+let add_buf call arg spec =
+  match String.split_on_char ':' spec with
+  | len :: kind :: rest ->
+      let len = int_of_string len in
+      let seed = match rest with s :: _ -> int_of_string s | [] -> 0 in
+      let b = Bytes.init len (fun i -> Char.chr (gen_byte kind.[0] seed i)) in
+      Hashtbl.replace bufs (call, arg) b;
+      last := None;
+      n_of_int len
+  | _ -> failwith "buffer spec"
+
+let scribble call =
+  Hashtbl.iter (fun (c, _) b ->
+      if c = call then
+        Bytes.iteri (fun i _ -> Bytes.set b i (Char.chr (0xA5 lxor ((i * 31) land 0xff)))) b) bufs
+
+let find_buf key =
+  match !last with
+  | Some (k, b) when k = key -> Some b
+  | _ ->
+      (match Hashtbl.find_opt bufs key with
+       | Some b -> last := Some (key, b); Some b
+       | None -> None)
+
+let rho : Hal.env = fun c a i ->
+  match find_buf (int_of_n c, int_of_n a) with
+  | Some b -> let i = int_of_n i in
+              if i < Bytes.length b then n_of_int (Char.code (Bytes.get b i)) else n_of_int 0
+  | None -> n_of_int 0
+
+(* ---------------------------------------------------------------- printing *)
+let pin_name = function
+  | Model.CsM1 -> "m1_cs" | Model.CsS1 -> "s1_cs" | Model.CsM2 -> "m2_cs" | Model.CsS2 -> "s2_cs"
+  | Model.Dc1 -> "m1s1_dc" | Model.Dc2 -> "m2s2_dc" | Model.Rst1 -> "m1s1_rst" | Model.Rst2 -> "m2s2_rst"
+let bpin_name = function
+  | Model.BM1 -> "m1_busy" | Model.BS1 -> "s1_busy" | Model.BM2 -> "m2_busy" | Model.BS2 -> "s2_busy"
+
+let bytes_of (l : coq_N list) : string =
+  let b = Buffer.create 128 in
+  L.iter (fun x -> Buffer.add_char b (Char.chr (int_of_n x land 255))) l;
+  Buffer.contents b
+
+let hexs (s : string) : string =
+  let b = Buffer.create (2 * String.length s) in
+  String.iter (fun c -> Buffer.add_string b (Printf.sprintf "%02x" (Char.code c))) s;
+  Buffer.contents b
+
+let print_events (out : Buffer.t) (evs : Model.bhal list) (full : bool) : unit =
+  L.iter (fun (e : Model.bhal) ->
+      match e with
+      | Model.HPin (p, l) -> Buffer.add_string out (Printf.sprintf "N %s %d\n" (pin_name p) (if l then 1 else 0))
+      | Model.HWrite (d, true) ->
+          let s = bytes_of (Hal.den rho d) in
+          let n = String.length s in
+          let (h1, h2) = hash2 s in
+          Buffer.add_string out (Printf.sprintf "W %d %d %d" n h1 h2);
+          if n > 0 && (full || n <= hexmax) then begin
+            Buffer.add_char out ' '; Buffer.add_string out (hexs s)
+          end;
+          Buffer.add_char out '\n'
+      | Model.HWrite (d, false) ->
+          Buffer.add_string out (Printf.sprintf "WX %d\n" (int_of_n (Iface.dlen d)))
+      | Model.HFlush -> Buffer.add_string out "S flush 0\n"
+      | Model.HRead l -> Buffer.add_string out (Printf.sprintf "S read %d\n" (L.length l))
+      | Model.HPoll (p, ans) ->
+          Buffer.add_string out (Printf.sprintf "PN %s L %d\n" (bpin_name p) (if ans then 1 else 0))
+      | Model.HDelay (u, n) ->
+          Buffer.add_string out (Printf.sprintf "T %s %d\n"
+            (match u with Iface.Dns -> "n" | Iface.Dus -> "u" | Iface.Dms -> "m") (int_of_n n)))
+    evs
+
+(* ---------------------------------------------------------------- scripts *)
+(* m:<bitsM1>/<bitsS1>/<bitsM2>/<bitsS2>, 1 = high = ready; afterwards high, low, high, ... *)
+let parse_busy (s : string) : Model.bworld =
+  let stream bits =
+    { Model.bs_levels = L.init (String.length bits) (fun i -> bits.[i] = '1'); Model.bs_phase = true } in
+  if String.length s < 2 || String.sub s 0 2 <> "m:" then failwith "busy spec m:a/b/c/d";
+  match String.split_on_char '/' (String.sub s 2 (String.length s - 2)) with
+  | [a; b; c; d] ->
+      { Model.w_m1 = stream a; Model.w_s1 = stream b; Model.w_m2 = stream c; Model.w_s2 = stream d;
+        Model.w_fault = None; Model.w_miso = [] }
+  | _ -> failwith "busy spec m:a/b/c/d"
+
+let parse_op (k : int) (t : string list) : Model.bop =
+  let n s = n_of_int (int_of_string s) in
+  let b s = add_buf k 0 s in
+  let rect x y w h = { Rect.rx = n x; Rect.ry = n y; Rect.rw = n w; Rect.rh = n h } in
+  let config kw r bd ext =
+    { Model.inverted_kw = (kw = "1"); Model.inverted_r = (r = "1");
+      Model.border_lut = (match bd with
+                          | "bd" -> Model.LUTBD | "k" -> Model.LUTK | "w" -> Model.LUTW | "r" -> Model.LUTR
+                          | s -> failwith ("border " ^ s));
+      Model.external_lut = (ext = "1") } in
+  match t with
+  | ["reset"] -> Model.OReset
+  | ["init"; kw; r; bd; ext] -> Model.OInit (config kw r bd ext)
+  | ["set_mode"; kw; r; bd; ext] -> Model.OSetMode (config kw r bd ext)
+  | ["write_data1"; s] -> Model.OWriteData1 (b s)
+  | ["write_data2"; s] -> Model.OWriteData2 (b s)
+  | ["write_data1_partial"; s; x; y; w; h] -> let l = b s in Model.OWriteData1Partial (rect x y w h, l)
+  | ["write_data2_partial"; s; x; y; w; h] -> let l = b s in Model.OWriteData2Partial (rect x y w h, l)
+  | ["set_lutc"; s] -> Model.OSetLutC (b s)
+  | ["set_lutww"; s] -> Model.OSetLutWW (b s)
+  | ["set_lutkw_lutr"; s] -> Model.OSetLutKW_LutR (b s)
+  | ["set_lutwk_lutw"; s] -> Model.OSetLutWK_LutW (b s)
+  | ["set_lutkk_lutk"; s] -> Model.OSetLutKK_LutK (b s)
+  | ["set_lutbd"; s] -> Model.OSetLutBD (b s)
+  | ["refresh_display"] -> Model.ORefreshDisplay
+  | ["begin_refresh_display"] -> Model.OBeginRefreshDisplay
+  | ["refresh_display_partial"; x; y; w; h] -> Model.ORefreshDisplayPartial (rect x y w h)
+  | ["begin_refresh_display_partial"; x; y; w; h] -> Model.OBeginRefreshDisplayPartial (rect x y w h)
+  | ["power_off"] -> Model.OPowerOff
+  | ["hibernate"] -> Model.OHibernate
+  | ["get_busy"] -> Model.OGetBusy
+  | ["is_busy"] -> Model.OIsBusy
+  | ["get_status"] -> Model.OGetStatus
+  | _ -> failwith ("bad op line: " ^ String.concat " " t)
+
+let run_case (full : bool) (id : string) (_delay : int option) (busy : string)
+    (fault : (int * int) option) (scrib : bool) (ops : string list list) (out : Buffer.t) : unit =
+  Hashtbl.reset bufs;
+  last := None;
+  let w = ref (parse_busy busy) in
+  let cs : coq_N option ref = ref None in      (* the driver = its control_state; None = not constructed *)
+  Buffer.add_string out (Printf.sprintf "case %s\n" id);
+  let stop = ref false in
+  L.iteri (fun i t -> if not !stop then begin
+      let flt = match fault with Some (oi, k) when oi = i -> Some (n_of_int k) | _ -> None in
+      let res, evs =
+        if t = ["new"] then begin
+          cs := Some Model.new_control_state; (Some (Model.BROk Model.VUnit), [])
+        end else
+          match !cs with
+          | None -> (None, [])
+          | Some c ->
+              let o = parse_op i t in
+              let (((r, c'), w'), evs) = Model.call (n_of_int i) o flt c !w in
+              cs := Some c'; w := w'; (Some r, evs)
+      in
+      Buffer.add_string out (Printf.sprintf "op %d %s\n" i (L.hd t));
+      if res = Some Model.BRDiverged then begin
+        stop := true; Buffer.add_string out "= DIVERGED\n"
+      end else begin
+        print_events out evs full;
+        Buffer.add_string out
+          (match res with
+           | None -> "= UNSUPPORTED\n"
+           | Some (Model.BROk Model.VUnit) -> "= OK\n"
+           | Some (Model.BROk (Model.VMask m)) -> Printf.sprintf "= OK %d\n" (int_of_n m)
+           | Some (Model.BROk (Model.VBool b)) -> Printf.sprintf "= OK %s\n" (if b then "true" else "false")
+           | Some (Model.BROk (Model.VStatus l)) -> Printf.sprintf "= OK %s\n" (hexs (bytes_of l))
+           | Some Model.BRErr -> "= ERR\n"
+           | Some Model.BRPanic -> "= PANIC\n"
+           | Some Model.BRDiverged -> "= DIVERGED\n")
+      end;
+      (* the events still refer to the buffers symbolically (DArg), so the bytes are looked up while
+         printing; scribble (as the harness does once the call has returned) only afterwards *)
+      if scrib then scribble i
+    end)
+    ops;
+  Buffer.add_string out "end\n"
